@@ -344,6 +344,23 @@ def check_duplicates(run, f, rule='R7'):
                         run.violation(rule, f.key, 'unused element ' + src(x, 60), 'the comprehension unpacks %s from its iterable but the element expression does '
                                       'not use %s: one of the paired sequences has no influence on the result' % (', '.join(t.id for t in g.target.elts),
                                                                                                               '/'.join(unused)), f=f, node=x)
+    # distinct locals that read the SAME constant-indexed element / row / column of one array (v2 = p[:, 1]; v3 = p[:, 1]): one of the
+    # elements meant to be read is never read
+    sel = {}
+    for x in own_walk(f.node):
+        if isinstance(x, ast.Assign) and len(x.targets) == 1 and isinstance(x.targets[0], ast.Name) and isinstance(x.value, ast.Subscript) \
+                and isinstance(x.value.value, ast.Name) and any(isinstance(c, ast.Constant) and isinstance(c.value, int) for c in ast.walk(x.value.slice)) \
+                and not any(isinstance(c, ast.Name) for c in ast.walk(x.value.slice)):
+            sel.setdefault(ast.dump(x.value), []).append(x)
+    for d, sts in sel.items():
+        names = {st.targets[0].id for st in sts}
+        if len(names) > 1:
+            n += 1
+            found = True
+            run.violation(rule, f.key, 'duplicate selection ' + src(sts[0].value, 30), 'the locals %s are all bound to %s: one of the elements that were '
+                          'meant to be read is never read' % (', '.join(sorted(names)), src(sts[0].value, 30)), f=f, node=sts[1])
+    if sel:
+        n += 1
     if n and not found:
         run.holds(rule, f.key, 'duplicate-operand lint', '%d boolean / comparison / difference / paired expressions, none with identical or unused operands' % n, f=f)
 
